@@ -2,6 +2,7 @@ package harness
 
 import (
 	"context"
+	"encoding/json"
 	"fmt"
 	"github.com/ethereum/go-ethereum/consensus"
 	"math/big"
@@ -139,9 +140,14 @@ type ForkOpts struct {
 	JoinPoints bool
 	Plan       *AspectPlan
 	Alloc      bool
-	NoProxy    bool          // hand the raw StateDB to the VM
-	Tee        avm.EVMLogger // additional tracer fed the same callbacks (after the recorder)
-	OnlyTee    bool          // attach Tee alone (no recorder) as Config.Tracer
+	NoProxy    bool // hand the raw StateDB to the VM
+	// Shared, when set, supplies objects that a host shares between EVM instances working on the same block:
+	// the block context (its big.Int fields are shared pointers) and the chain configuration.
+	Shared *SharedHost
+	// NoBaseFee builds the EVM the way a gas-less call does: Config.NoBaseFee with a zero gas price.
+	NoBaseFee bool
+	Tee       avm.EVMLogger // additional tracer fed the same callbacks (after the recorder)
+	OnlyTee   bool          // attach Tee alone (no recorder) as Config.Tracer
 }
 
 // ForkSession is one EVM instance of the code under test over one state.
@@ -177,9 +183,13 @@ func NewForkSession(w *World, env EnvSpec, o ForkOpts) *ForkSession {
 	if env.Number != 0 {
 		bc.BlockNumber = new(big.Int).SetUint64(env.Number)
 	}
+	if o.Shared != nil {
+		bc = o.Shared.BC // (a struct copy, as hosts pass it: the pointers inside are shared)
+		s.Cfg = o.Shared.Cfg
+	}
 	s.Rules = s.Cfg.Rules(bc.BlockNumber, bc.Random != nil, bc.Time)
 	s.Rec = &ForkRecorder{L: s.L, Proxy: s.Proxy, Alloc: o.Alloc}
-	cfg := avm.Config{ExtraEips: append([]int(nil), env.ExtraEips...)}
+	cfg := avm.Config{ExtraEips: append([]int(nil), env.ExtraEips...), NoBaseFee: o.NoBaseFee}
 	if o.Debug {
 		switch {
 		case o.OnlyTee:
@@ -193,6 +203,10 @@ func NewForkSession(w *World, env EnvSpec, o ForkOpts) *ForkSession {
 	to := common.Address{}
 	msg := &ethcore.Message{From: Sender, To: &to, Value: new(big.Int), GasLimit: 10_000_000, GasPrice: gasPrice(), GasFeeCap: gasPrice(), GasTipCap: gasPrice(), Data: []byte{}}
 	txc := avm.TxContext{Origin: Origin, GasPrice: gasPrice(), Message: msg}
+	if o.NoBaseFee {
+		msg.GasPrice, msg.GasFeeCap, msg.GasTipCap = new(big.Int), new(big.Int), new(big.Int)
+		txc.GasPrice = new(big.Int)
+	}
 	var sdb avm.StateDB = s.Proxy
 	if o.NoProxy {
 		sdb = s.DB
@@ -477,4 +491,37 @@ func (s *ForkSession) UseChainHashes(height uint64) *CountingChain {
 	bc.GetHash = acore.GetHashFn(c.header(height), c)
 	s.EVM.SetBlockContext(bc)
 	return c
+}
+
+// SharedHost holds what a host shares between the EVM instances it runs against one block.
+type SharedHost struct {
+	BC  avm.BlockContext
+	Cfg *params.ChainConfig
+	sig string
+}
+
+// NewSharedHost builds the shared objects for a fork (no per-session transfer log: the transfer function is the
+// plain core.Transfer).
+func NewSharedHost(f Fork) *SharedHost {
+	sh := &SharedHost{BC: forkBlockCtx(f, nil), Cfg: ChainConfig(f)}
+	sh.sig = sh.Signature()
+	return sh
+}
+
+// Signature renders every value reachable from the shared objects.
+func (sh *SharedHost) Signature() string {
+	j, _ := json.Marshal(sh.Cfg)
+	r := "<nil>"
+	if sh.BC.Random != nil {
+		r = sh.BC.Random.Hex()
+	}
+	return fmt.Sprintf("number=%v time=%d difficulty=%v basefee=%v gaslimit=%d coinbase=%s random=%s cfg=%s", sh.BC.BlockNumber, sh.BC.Time, sh.BC.Difficulty, sh.BC.BaseFee, sh.BC.GasLimit, sh.BC.Coinbase.Hex(), r, j)
+}
+
+// Changed reports what differs from the values at construction ("" when nothing does).
+func (sh *SharedHost) Changed() string {
+	if now := sh.Signature(); now != sh.sig {
+		return "was: " + sh.sig + "\nnow: " + now
+	}
+	return ""
 }
